@@ -1,5 +1,6 @@
 import XmlRsModel.XPath.Eval
 import XmlRsModel.Lemmas.PegSound
+import XmlRsModel.Gen.XPathFuncs
 /-! Property C06: XPath parsing and evaluation are total.
     The model's parser is the fuel interpreter of the grammar generated from `xpath/src/expr/mod.rs`;
     its evaluator is defined by structural recursion on the expression (Lean's termination checker
@@ -35,6 +36,11 @@ theorem arity_is_checked (env : XPath.Env) (c : Ctx) (name : Str) (args : List E
   rcases hbad with hl | ⟨m, rfl, hm⟩
   · simp [hl]
   · simp [hm]
+
+/-- the table of the core library the model evaluates with IS the table the evaluator's source declares (names, least and
+    greatest number of arguments; `Gen/XPathFuncs.lean` is regenerated from xpath/src/eval/func.rs on every run): a function added,
+    dropped or given another arity in the source breaks this statement -/
+theorem arity_table_is_the_sources : funcTable = Gen.XPathFuncs.table := rfl
 
 /-- a name test with a prefix the caller has not bound is an error -/
 theorem unbound_prefix_is_error (env : XPath.Env) (a : Axis) (p l : Str) (k : Key)
